@@ -25,8 +25,8 @@ type SolverKind struct {
 }
 
 var (
-	KindZ3    = SolverKind{"z3-4.8.12", []string{"z3", "-in"}}
-	KindZ3New = SolverKind{"z3-5.1.0", []string{"z3-new", "-in"}}
+	KindZ3    = SolverKind{"z3-4.8.12", []string{"z3", "-in", "-memory:6000"}}
+	KindZ3New = SolverKind{"z3-5.1.0", []string{"z3-new", "-in", "-memory:6000"}}
 	KindCVC5  = SolverKind{"cvc5-1.0", []string{"cvc5", "--incremental", "--lang=smt2", "--produce-models"}}
 )
 
@@ -67,9 +67,24 @@ func (s *Solver) start() error {
 		return err
 	}
 	s.cmd.Stderr = nil
+	childMu.Lock()
+	if stopping {
+		childMu.Unlock()
+		return fmt.Errorf("engine is stopping")
+	}
 	if err := s.cmd.Start(); err != nil {
+		childMu.Unlock()
 		return err
 	}
+	children[s.cmd] = true
+	if len(children) > 256 {
+		for k := range children {
+			if k.ProcessState != nil {
+				delete(children, k)
+			}
+		}
+	}
+	childMu.Unlock()
 	s.lines = make(chan string, 1024)
 	rd := bufio.NewReaderSize(so, 1<<20)
 	go func(ch chan string) {
@@ -462,4 +477,24 @@ func DecodeValue(raw string, s Sort) (interface{}, bool) {
 		}
 	}
 	return nil, false
+}
+
+
+// ---- child registry: solver processes are killed when the engine is told to stop ----
+
+var (
+	childMu  sync.Mutex
+	children = map[*exec.Cmd]bool{}
+	stopping bool
+)
+
+func killAllChildren() {
+	childMu.Lock()
+	stopping = true
+	for c := range children {
+		if c.Process != nil && c.ProcessState == nil {
+			c.Process.Kill()
+		}
+	}
+	childMu.Unlock()
 }
